@@ -50,7 +50,7 @@ def oracle(q, a):
 def run(run):
     rng = run.rng
     run.do_ties()
-    quick = run.tier == "quick"
+    quick = run.quick
     reqs = []
     for _ in range(600 if quick else 20000):
         m = rng.random()
